@@ -48,32 +48,7 @@ def find_match_site(src, f):
     raise AnalysisError('no `m = <regex>.match(...)` in %s' % f.site)
 
 
-def first_optional_groups(pattern, flags, wanted):
-    """groups whose participation is decided first by backtracking priority: they sit in a greedy
-    optional that is the first consuming element of the top-level sequence"""
-    tree = rx.parse(pattern, flags)
-    gd = tree.state.groupdict
-    names = {v: k for k, v in gd.items()}
-    for op, av in tree:
-        ops = str(op)
-        if ops == 'AT':
-            continue
-        if ops == 'MAX_REPEAT' and av[0] == 0 and av[1] == 1:
-            out = []
-
-            def collect(seq, top=True):
-                for o, a in seq:
-                    o = str(o)
-                    if o == 'SUBPATTERN':
-                        if a[0] in names and names[a[0]] in wanted:
-                            out.append(names[a[0]])
-                        collect(a[3], False)
-                    elif o in ('MAX_REPEAT', 'MIN_REPEAT', 'BRANCH'):
-                        return   # nested choice: participation no longer tied to the outer optional
-            collect(av[2])
-            return out
-        return []
-    return []
+first_optional_groups = rx.first_optional_groups
 
 
 def guard_lang(test, mvar, alpha, markers, groups_seen):
